@@ -1005,6 +1005,9 @@ class Conv:
         if name == "atan2":
             i = self._opaque_var("A", x, [self.f(a), self.f(x.args[2])])
             return Frac(Fraction(1), self.ring.gen(i))
+        if name == "softplus_thr":
+            i = self._opaque_var("P", x, [self.f(a), self.const(x.args[2])])
+            return Frac(Fraction(1), self.ring.gen(i))
         if name in ("remainder", "fmod"):
             # opaque real (no algebraic relation to its argument is used): identities that need x mod m == x are not provable
             i = self._opaque_var("M", x, [self.f(a), self.f(x.args[2])])
